@@ -154,6 +154,12 @@ fn main() {
         jobs.push(Job { src: c.src, class: "nested-grid", ty: Ty::Nest, expected: c.expected, model: None, alias_model });
         ctx.count(&format!("grid:{}", c.class));
     }
+    // a shared object without children at the spawn (empty array, struct of immediates) along 2-3 paths
+    for i in 0..(n / 10).max(18) {
+        let c = gen_shared_childless(&mut ctx.rng, i, false);
+        ctx.count(&format!("grid:{}", c.class));
+        jobs.push(Job { src: c.src, class: "shared-childless", ty: Ty::Nest, expected: c.expected, model: None, alias_model: c.model.map(|m| m.0) });
+    }
     // histories: several copies (self-reads, spawns) on one thread with recurring source objects
     for _ in 0..n / 4 {
         let c = gen_history(&mut ctx.rng);
